@@ -1,8 +1,1542 @@
-//! C24 — not built yet.
+//! C24 — jq mode matches jq 1.7.1 outside documented divergences (DESIGN §4 C24).
+//!
+//! The pinned jq 1.7.1 binary is not in the sandbox. Two black-box oracles through the CLI:
+//!  (a) `meta`: recorded-truth metamorphic search. Every recorded (filter, input) ↦ result
+//!      pair of the repository's jq 1.7.1 corpus (golden cases + error probes) is wrapped in
+//!      programs whose jq result is a function of the recorded result by jq's defining
+//!      equations; the expected outcome is computed by the harness from the recording alone.
+//!  (b) `proxy`: differential against /usr/bin/jq (1.6) on the version-stable core fragment
+//!      (typed generator `gen::jqcore`), value-level comparison.
+//! plus `anchors` (the recorded corpus itself, verbatim) and a calibration pass that measures
+//! how far jq 1.6 agrees with the 1.7.1 recordings (numbers go into the evidence).
+use crate::cli::{self, CliOut};
 use crate::engine::*;
+use crate::gen::jqcore::{self, Shape};
+use crate::gen::json::{j_eq, to_compact, J};
+use crate::oracle::jsonval::{parse_one, parse_stream};
+use serde_json::{json, Value};
+use std::collections::{BTreeMap, BTreeSet};
+use std::sync::Mutex;
+use std::time::Duration;
 
-pub const RULE: &str = "not built";
+pub const RULE: &str = "(a) meta: anchor drawn from the recorded jq 1.7.1 corpus (487 golden cases + 219 error probes, minus the repo's known-failure manifests, minus filters using input/halt/$__loc__/env/now/debug, minus -r cases) wrapped in 1..3 nested law wrappers ([f], f|., .|f, (f),(f), first, limit, [f][i], as-bindings, def, if, try/catch, ?, {a:f}, [f]|length, reduce, foreach, //, label/break, [.[]|f] over [x,x], ...); expected outcome (values, error or not, message, exit status, and the text when the wrapper preserves it) computed from the recording alone. Non-trivial: >= 2 wrappers; distinct by hash(anchor, program). (b) proxy: typed core-fragment program (gen::jqcore) over 1..6 same-shape documents, compared with jq 1.6 by value (numbers as doubles), error-or-not, exit status, and message text only for message families the recorded probe corpus shows identical in 1.6 and 1.7.1. Non-trivial: >= 3 AST nodes on a non-scalar input; distinct by hash(program, docs).";
+
+const JQ16: &str = "/usr/bin/jq";
+/// known finding: a postfix (`[i]`, `.k`, `[]`, slice) directly after an array/object
+/// construction, string literal, function call or `..` is a parse error in succinctly
+const SIG_POSTFIX: &str = "C24/parse-reject/postfix-on-constructed-term";
+/// known finding: `error(f)` with f producing no output raises "no value" instead of producing nothing
+const SIG_ERROR_EMPTY: &str = "C24/zero-output-argument/error(empty)-raises-no-value";
+/// known finding: a string with an interpolation is rejected as an object key
+const SIG_INTERP_KEY: &str = "C24/parse-reject/interpolated-object-key";
+/// known finding: `{$v}` object-construction shorthand is rejected
+const SIG_VAR_SHORTHAND: &str = "C24/parse-reject/object-variable-shorthand";
+/// known finding: `"" | split(",")` / `"" / ","` is [""] instead of []
+const SIG_SPLIT_EMPTY: &str = "C24/proxy/values/split-of-empty-string";
+/// known finding: `last(f)` of an empty stream is null in jq <= 1.7.1 (`reduce f as $x (null; $x)`), nothing in succinctly
+const SIG_LAST_EMPTY: &str = "C24/proxy/values/last-of-empty-stream";
+/// known finding: variables bound outside `error(...)` (by `as` or --arg) are undefined inside its argument
+const SIG_ERROR_ARG_SCOPE: &str = "C24/error-argument-loses-variable-scope";
+/// known finding: index/rindex/indices(string) on an *object* input index the object (`.[$i]`) in jq, give null in succinctly
+const SIG_INDEX_OBJECT: &str = "C24/proxy/index-builtins-on-object-input";
+/// known finding: sqrt is a Newton iteration, 1 ulp off for many inputs (`2|sqrt`)
+const SIG_SQRT: &str = "C24/proxy/values/sqrt-not-correctly-rounded";
+/// known finding: bare `flatten` flattens one level only (jq: all levels)
+const SIG_FLATTEN: &str = "C24/proxy/values/flatten-only-one-level";
+const SIG_FORMAT_LITERAL: &str = "C24/parse-reject/format-string-literal";
+const TWO53: f64 = 9007199254740992.0;
+
+fn repo() -> String {
+    std::env::var("VH_REPO").unwrap_or_else(|_| "/repo".into())
+}
+
+// ------------------------------------------------------------------ corpus
+
+#[derive(Clone, Debug)]
+struct Golden {
+    name: String,
+    args: Vec<String>,
+    filter: String,
+    input: String,
+    out: String,
+    status: Option<i32>,
+    err: Option<String>,
+}
+
+#[derive(Clone, Debug)]
+struct Probe {
+    id: String,
+    filter: String,
+    input: String,
+    msg: String,
+}
+
+fn manifest_names(path: &str) -> BTreeSet<String> {
+    std::fs::read_to_string(path)
+        .unwrap_or_default()
+        .lines()
+        .map(str::trim)
+        .filter(|l| !l.is_empty() && !l.starts_with('#'))
+        .filter_map(|l| l.split_whitespace().next().map(|s| s.to_string()))
+        .collect()
+}
+
+fn load_goldens() -> Result<Vec<Golden>, String> {
+    let dir = format!("{}/tests/data/jq-golden/cases", repo());
+    let mut names: Vec<String> = std::fs::read_dir(&dir).map_err(|e| format!("{}: {}", dir, e))?.filter_map(|e| e.ok()).filter(|e| e.path().is_dir()).map(|e| e.file_name().to_string_lossy().to_string()).collect();
+    names.sort();
+    let mut out = vec![];
+    for name in names {
+        let rd = |f: &str| std::fs::read_to_string(format!("{}/{}/{}", dir, name, f)).ok();
+        let (Some(args), Some(filter), Some(input), Some(o)) = (rd("args"), rd("filter"), rd("input.json"), rd("expected.out")) else {
+            return Err(format!("golden case {} is incomplete", name));
+        };
+        out.push(Golden {
+            name: name.clone(),
+            args: args.lines().map(str::to_string).collect(),
+            filter: filter.trim_end_matches('\n').to_string(),
+            input,
+            out: o,
+            status: rd("expected.status").and_then(|s| s.trim().parse().ok()),
+            err: rd("expected.err"),
+        });
+    }
+    Ok(out)
+}
+
+fn load_probes() -> Result<Vec<Probe>, String> {
+    let p = format!("{}/tests/data/jq-error-messages.tsv", repo());
+    let t = std::fs::read_to_string(&p).map_err(|e| format!("{}: {}", p, e))?;
+    let mut out = vec![];
+    for l in t.lines() {
+        let l = l.trim_end();
+        if l.is_empty() || l.starts_with('#') {
+            continue;
+        }
+        let c: Vec<&str> = l.split('\t').collect();
+        if c.len() < 4 {
+            return Err(format!("malformed probe row: {}", l));
+        }
+        out.push(Probe { id: c[0].into(), filter: c[1].into(), input: c[2].into(), msg: c[3].into() });
+    }
+    Ok(out)
+}
+
+// ------------------------------------------------------------------ running
+
+/// Run a jq program (always via `-f <file>`): `bin` None = succinctly, Some = a reference jq.
+fn run_prog(bin: Option<&str>, args: &[String], prog: &str, input: &[u8], timeout_s: u64) -> CliOut {
+    let f = cli::write_tmp("prog", prog.as_bytes());
+    let fs = f.to_string_lossy().to_string();
+    let mut a: Vec<&str> = vec![];
+    if bin.is_none() {
+        a.push("jq");
+    }
+    for x in args {
+        a.push(x);
+    }
+    a.push("-f");
+    a.push(&fs);
+    let path = match bin {
+        Some(b) => b.to_string(),
+        None => cli::cli_path(),
+    };
+    let r = cli::run_with(&path, &a, Some(input), Duration::from_secs(timeout_s), &[]);
+    let _ = std::fs::remove_file(&f);
+    r
+}
+
+#[derive(Clone, Debug, PartialEq)]
+enum ErrMsg {
+    /// string payload / runtime message
+    Str(String),
+    /// non-string payload, JSON text
+    NotStr(String),
+}
+
+/// Parse the "jq: error (at <loc>)[ (not a string)]: …" lines of a stderr stream.
+/// Returns None if stderr holds anything else (compile errors, usage, panics …).
+fn parse_errs(stderr: &str) -> Option<Vec<ErrMsg>> {
+    let mut out: Vec<ErrMsg> = vec![];
+    for line in stderr.split_inclusive('\n') {
+        let l = line.strip_suffix('\n').unwrap_or(line);
+        if let Some(rest) = l.strip_prefix("jq: error (at ") {
+            let close = rest.find(')')?;
+            let after = &rest[close + 1..];
+            if let Some(m) = after.strip_prefix(": ") {
+                out.push(ErrMsg::Str(m.to_string()));
+            } else if let Some(m) = after.strip_prefix(" (not a string): ") {
+                out.push(ErrMsg::NotStr(m.to_string()));
+            } else {
+                return None;
+            }
+        } else if l.is_empty() && line == "\n" && out.is_empty() {
+            return None;
+        } else {
+            // continuation of a multi-line string payload
+            match out.last_mut() {
+                Some(ErrMsg::Str(s)) | Some(ErrMsg::NotStr(s)) => {
+                    s.push('\n');
+                    s.push_str(l);
+                }
+                None => return None,
+            }
+        }
+    }
+    Some(out)
+}
+
+fn errmsg_of_payload(p: &J) -> ErrMsg {
+    match p {
+        J::Str(s) => ErrMsg::Str(s.clone()),
+        v => ErrMsg::NotStr(to_compact(v)),
+    }
+}
+
+fn errmsg_eq(a: &ErrMsg, b: &ErrMsg) -> bool {
+    match (a, b) {
+        (ErrMsg::Str(x), ErrMsg::Str(y)) => x == y,
+        (ErrMsg::NotStr(x), ErrMsg::NotStr(y)) => match (parse_one(x.as_bytes()), parse_one(y.as_bytes())) {
+            (Ok(p), Ok(q)) => j_eq(&p, &q),
+            _ => x == y,
+        },
+        _ => false,
+    }
+}
+
+/// Normalise a message into its family: value dumps -> (V), quoted strings -> "S", digits -> N.
+fn template(msg: &str) -> String {
+    const TYPES: [&str; 6] = ["null", "boolean", "number", "string", "array", "object"];
+    const TAILS: [&str; 12] = [" and ", " cannot ", " has ", " is ", " only ", " can't ", " as ", " not ", " number required", " trailing ", " key", " with "];
+    // 1. dumps
+    let mut s = String::new();
+    let b = msg;
+    let mut i = 0;
+    while i < b.len() {
+        let rest = &b[i..];
+        let mut done = false;
+        for t in TYPES {
+            if rest.starts_with(t) && rest[t.len()..].starts_with(" (") && (i == 0 || !b.as_bytes()[i - 1].is_ascii_alphanumeric()) {
+                let body = &rest[t.len() + 2..];
+                // the dump ends at the first ')' followed by a known tail or the end
+                let mut end = None;
+                for (k, c) in body.char_indices() {
+                    if c == ')' {
+                        let after = &body[k + 1..];
+                        if after.is_empty() || TAILS.iter().any(|x| after.starts_with(x)) {
+                            end = Some(k);
+                            break;
+                        }
+                    }
+                }
+                if let Some(k) = end {
+                    s.push_str(t);
+                    s.push_str(" (V)");
+                    i += t.len() + 2 + k + 1;
+                    done = true;
+                }
+                break;
+            }
+        }
+        if !done {
+            let c = rest.chars().next().unwrap();
+            s.push(c);
+            i += c.len_utf8();
+        }
+    }
+    // 2. quoted strings and digit runs
+    let mut o = String::new();
+    let cs: Vec<char> = s.chars().collect();
+    let mut i = 0;
+    while i < cs.len() {
+        let c = cs[i];
+        if c == '"' {
+            // up to the last quote of the message family's key position: take to the next unescaped quote
+            let mut j = i + 1;
+            while j < cs.len() && cs[j] != '"' {
+                if cs[j] == '\\' {
+                    j += 1;
+                }
+                j += 1;
+            }
+            o.push_str("\"S\"");
+            i = (j + 1).min(cs.len());
+        } else if c == '\'' && !(i > 0 && cs[i - 1].is_ascii_alphabetic()) {
+            let mut j = i + 1;
+            while j < cs.len() && cs[j] != '\'' {
+                j += 1;
+            }
+            o.push_str("'S'");
+            i = (j + 1).min(cs.len());
+        } else if c.is_ascii_digit() {
+            while i < cs.len() && cs[i].is_ascii_digit() {
+                i += 1;
+            }
+            o.push('N');
+        } else {
+            o.push(c);
+            i += 1;
+        }
+    }
+    o
+}
+
+fn short(s: &str, n: usize) -> String {
+    if s.len() <= n {
+        s.to_string()
+    } else {
+        let mut e = n;
+        while !s.is_char_boundary(e) {
+            e -= 1;
+        }
+        format!("{}…(+{}B)", &s[..e], s.len() - e)
+    }
+}
+
+fn show_out(o: &CliOut) -> Value {
+    json!({"exit": o.code, "signal": o.signal, "timed_out": o.timed_out, "stdout": short(&o.stdout_str(), 1500), "stderr": short(&o.stderr_str(), 800)})
+}
+
+fn has_big_number(j: &J) -> bool {
+    match j {
+        J::Num(n) => !n.value.is_finite() || n.value.abs() > TWO53,
+        J::Arr(a) => a.iter().any(has_big_number),
+        J::Obj(f) => f.iter().any(|x| has_big_number(&x.1)),
+        _ => false,
+    }
+}
+
+// ------------------------------------------------------------------ anchors (verbatim) + calibration
+
+/// The repository's own comparison for a golden case; Ok or a short reason.
+fn golden_verdict(g: &Golden, o: &CliOut) -> Result<(), String> {
+    if o.timed_out {
+        return Err("timeout".into());
+    }
+    match g.status {
+        None => {
+            if o.code != Some(0) {
+                return Err(format!("exit {:?}, jq exits 0", o.code));
+            }
+        }
+        Some(w) => {
+            if o.code != Some(w) {
+                return Err(format!("exit {:?}, jq exits {}", o.code, w));
+            }
+            if o.stderr != g.err.clone().unwrap_or_default().as_bytes() {
+                return Err("stderr differs".into());
+            }
+        }
+    }
+    if o.stdout != g.out.as_bytes() {
+        return Err("stdout differs".into());
+    }
+    Ok(())
+}
+
+fn probe_verdict(p: &Probe, o: &CliOut) -> Result<(), String> {
+    if o.timed_out {
+        return Err("timeout".into());
+    }
+    if o.code != Some(5) {
+        return Err(format!("exit {:?}, jq exits 5", o.code));
+    }
+    match parse_errs(&o.stderr_str()) {
+        Some(v) if v.len() == 1 => match &v[0] {
+            // the recording keeps the first line of the message
+            ErrMsg::Str(m) if m.lines().next().unwrap_or("") == p.msg || *m == p.msg => Ok(()),
+            m => Err(format!("message {:?}", m)),
+        },
+        _ => Err("stderr is not one jq error line".into()),
+    }
+}
+
+struct Calibration {
+    golden_agree: usize,
+    golden_total: usize,
+    golden_disagree: Vec<(String, String)>,
+    probe_agree: usize,
+    probe_total: usize,
+    probe_disagree: Vec<(String, String)>,
+    /// message families shown identical in 1.6 and 1.7.1
+    stable: BTreeSet<String>,
+    /// families seen in a disagreeing probe (1.6's own wording)
+    unstable: BTreeSet<String>,
+}
+
+fn par_map<T: Sync, R: Send>(items: &[T], threads: usize, f: impl Fn(&T) -> R + Sync) -> Vec<R> {
+    let next = std::sync::atomic::AtomicUsize::new(0);
+    let out: Mutex<Vec<(usize, R)>> = Mutex::new(vec![]);
+    std::thread::scope(|s| {
+        for _ in 0..threads.max(1) {
+            s.spawn(|| loop {
+                let i = next.fetch_add(1, std::sync::atomic::Ordering::Relaxed);
+                if i >= items.len() {
+                    break;
+                }
+                let r = f(&items[i]);
+                out.lock().unwrap().push((i, r));
+            });
+        }
+    });
+    let mut v = out.into_inner().unwrap();
+    v.sort_by_key(|x| x.0);
+    v.into_iter().map(|x| x.1).collect()
+}
+
+fn calibrate(goldens: &[Golden], probes: &[Probe], threads: usize) -> Calibration {
+    // a time-out is retried once with a longer limit (a loaded machine is not a disagreement);
+    // what still times out is jq 1.6 not terminating (its regex loops on empty matches)
+    let gres = par_map(goldens, threads, |g| {
+        let mut o = run_prog(Some(JQ16), &g.args, &g.filter, g.input.as_bytes(), 2);
+        if o.timed_out {
+            o = run_prog(Some(JQ16), &g.args, &g.filter, g.input.as_bytes(), 10);
+        }
+        golden_verdict(g, &o)
+    });
+    let pres = par_map(probes, threads, |p| {
+        let mut o = run_prog(Some(JQ16), &["-c".to_string()], &p.filter, p.input.as_bytes(), 2);
+        if o.timed_out {
+            o = run_prog(Some(JQ16), &["-c".to_string()], &p.filter, p.input.as_bytes(), 10);
+        }
+        let own = parse_errs(&o.stderr_str()).and_then(|v| v.into_iter().next());
+        (probe_verdict(p, &o), own)
+    });
+    let mut c = Calibration { golden_agree: 0, golden_total: goldens.len(), golden_disagree: vec![], probe_agree: 0, probe_total: probes.len(), probe_disagree: vec![], stable: BTreeSet::new(), unstable: BTreeSet::new() };
+    for (g, r) in goldens.iter().zip(gres) {
+        match r {
+            Ok(()) => {
+                c.golden_agree += 1;
+                if let Some(e) = &g.err {
+                    if let Some(v) = parse_errs(e) {
+                        for m in v {
+                            if let ErrMsg::Str(m) = m {
+                                c.stable.insert(template(&m));
+                            }
+                        }
+                    }
+                }
+            }
+            Err(why) => c.golden_disagree.push((g.name.clone(), why)),
+        }
+    }
+    for (p, (r, own)) in probes.iter().zip(pres) {
+        match r {
+            Ok(()) => {
+                c.probe_agree += 1;
+                c.stable.insert(template(&p.msg));
+            }
+            Err(why) => {
+                c.probe_disagree.push((p.id.clone(), why));
+                // the recorded 1.7.1 wording that 1.6 does not produce; 1.6's own wording belongs to
+                // constructs the core profile excludes (regex flags, slice paths, NaN indices, implode)
+                let _ = own;
+                c.unstable.insert(template(&p.msg));
+            }
+        }
+    }
+    for u in c.unstable.clone() {
+        c.stable.remove(&u);
+    }
+    c
+}
+
+/// Development aid only (never set by run.sh): VH_C24_CAL_CACHE=<file> reuses a previous
+/// calibration so that iterating on the generator does not re-run 706 reference spawns.
+fn calibrate_cached(goldens: &[Golden], probes: &[Probe], threads: usize) -> Calibration {
+    let Ok(path) = std::env::var("VH_C24_CAL_CACHE") else {
+        return calibrate(goldens, probes, threads);
+    };
+    if let Ok(t) = std::fs::read_to_string(&path) {
+        if let Ok(v) = serde_json::from_str::<Value>(&t) {
+            let pairs = |k: &str| -> Vec<(String, String)> { v[k].as_array().map(|a| a.iter().map(|x| (x[0].as_str().unwrap_or("").to_string(), x[1].as_str().unwrap_or("").to_string())).collect()).unwrap_or_default() };
+            let set = |k: &str| -> BTreeSet<String> { v[k].as_array().map(|a| a.iter().filter_map(|x| x.as_str().map(str::to_string)).collect()).unwrap_or_default() };
+            return Calibration { golden_agree: v["ga"].as_u64().unwrap_or(0) as usize, golden_total: goldens.len(), golden_disagree: pairs("gd"), probe_agree: v["pa"].as_u64().unwrap_or(0) as usize, probe_total: probes.len(), probe_disagree: pairs("pd"), stable: set("stable"), unstable: set("unstable") };
+        }
+    }
+    let c = calibrate(goldens, probes, threads);
+    let _ = std::fs::write(&path, json!({"ga": c.golden_agree, "pa": c.probe_agree, "gd": c.golden_disagree.iter().map(|x| json!([x.0, x.1])).collect::<Vec<_>>(), "pd": c.probe_disagree.iter().map(|x| json!([x.0, x.1])).collect::<Vec<_>>(), "stable": c.stable.iter().collect::<Vec<_>>(), "unstable": c.unstable.iter().collect::<Vec<_>>()}).to_string());
+    c
+}
+
+// ------------------------------------------------------------------ (a) metamorphic
+
+#[derive(Clone, Debug)]
+struct Anchor {
+    id: String,
+    args: Vec<String>,
+    filter: String,
+    input: String,
+    /// recorded outputs (value, compact text when the recording is `-c` text) — None for probes
+    ys: Option<Vec<(J, Option<String>)>>,
+    /// recorded error payload
+    err: Option<J>,
+    null_input: bool,
+    exit_status_flag: bool,
+    /// the recorded run prints one compact value per line (`-c`, no -a/-S): text laws apply
+    compact_text: bool,
+}
+
+const BANNED: &[&str] = &["input", "inputs", "halt", "halt_error", "$__loc__", "input_line_number", "debug", "stderr", "env", "$ENV", "now", "localtime", "input_filename", "$__prog_args", "import", "include", "modulemeta", "get_search_list", "builtins"];
+
+fn idents(s: &str) -> Vec<String> {
+    let mut out = vec![];
+    let cs: Vec<char> = s.chars().collect();
+    let mut i = 0;
+    while i < cs.len() {
+        if cs[i].is_ascii_alphabetic() || cs[i] == '_' || cs[i] == '$' {
+            let st = i;
+            i += 1;
+            while i < cs.len() && (cs[i].is_ascii_alphanumeric() || cs[i] == '_') {
+                i += 1;
+            }
+            out.push(cs[st..i].iter().collect());
+        } else {
+            i += 1;
+        }
+    }
+    out
+}
+
+fn filter_banned(f: &str) -> bool {
+    idents(f).iter().any(|w| BANNED.contains(&w.as_str()))
+}
+
+fn build_anchors(goldens: &[Golden], probes: &[Probe], known_g: &BTreeSet<String>, known_p: &BTreeSet<String>, skipped: &mut BTreeMap<String, u64>) -> Vec<Anchor> {
+    let mut out = vec![];
+    let mut skip = |why: &str| *skipped.entry(why.to_string()).or_insert(0) += 1;
+    for g in goldens {
+        if known_g.contains(&g.name) {
+            skip("golden: listed in jq-golden-known-failures.txt");
+            continue;
+        }
+        if filter_banned(&g.filter) {
+            skip("golden: filter uses input/halt/$__loc__/env/now/debug…");
+            continue;
+        }
+        // options: only those that do not change the value stream (or that we replicate)
+        let mut ok = true;
+        let mut i = 0;
+        let mut compact = false;
+        let mut plain_text = true;
+        let mut null_input = false;
+        let mut eflag = false;
+        while i < g.args.len() {
+            match g.args[i].as_str() {
+                "-c" => compact = true,
+                "-n" => null_input = true,
+                "-a" | "-S" => plain_text = false,
+                "-e" => eflag = true,
+                "--arg" | "--argjson" => i += 2,
+                "" => {}
+                _ => ok = false,
+            }
+            i += 1;
+        }
+        if !ok {
+            skip("golden: output option not value-preserving (-r …)");
+            continue;
+        }
+        if !null_input {
+            match parse_stream(g.input.as_bytes()) {
+                Ok(v) if v.len() == 1 => {}
+                _ => {
+                    skip("golden: input is not exactly one JSON document");
+                    continue;
+                }
+            }
+        }
+        let vals = match parse_stream(g.out.as_bytes()) {
+            Ok(v) => v,
+            Err(_) => {
+                skip("golden: recorded stdout is not a JSON value stream");
+                continue;
+            }
+        };
+        let lines: Vec<&str> = g.out.lines().collect();
+        let texts: Vec<Option<String>> = if compact && plain_text && lines.len() == vals.len() { lines.iter().map(|l| Some(l.to_string())).collect() } else { vec![None; vals.len()] };
+        let err = match (&g.status, &g.err) {
+            (None, _) => None,
+            (Some(5), Some(e)) => match parse_errs(e) {
+                Some(v) if v.len() == 1 => match &v[0] {
+                    ErrMsg::Str(m) => Some(J::Str(m.clone())),
+                    ErrMsg::NotStr(t) => match parse_one(t.as_bytes()) {
+                        Ok(j) => Some(j),
+                        Err(_) => {
+                            skip("golden: unparsable error payload");
+                            continue;
+                        }
+                    },
+                },
+                _ => {
+                    skip("golden: recorded stderr is not one runtime error");
+                    continue;
+                }
+            },
+            _ => {
+                skip("golden: recorded failure is not a runtime error (status != 5)");
+                continue;
+            }
+        };
+        out.push(Anchor { id: format!("golden:{}", g.name), args: g.args.iter().filter(|a| !a.is_empty()).cloned().collect(), filter: g.filter.clone(), input: g.input.clone(), ys: Some(vals.into_iter().zip(texts).collect()), err, null_input, exit_status_flag: eflag, compact_text: compact && plain_text });
+    }
+    for p in probes {
+        if known_p.contains(&p.id) {
+            skip("probe: listed in jq-error-known-divergences.txt");
+            continue;
+        }
+        if filter_banned(&p.filter) {
+            skip("probe: filter uses input/halt/$__loc__/env/now/debug…");
+            continue;
+        }
+        if !matches!(parse_stream(p.input.as_bytes()), Ok(v) if v.len() == 1) {
+            skip("probe: input is not exactly one JSON document");
+            continue;
+        }
+        out.push(Anchor { id: format!("probe:{}", p.id), args: vec!["-c".into()], filter: p.filter.clone(), input: p.input.clone(), ys: None, err: Some(J::Str(p.msg.clone())), null_input: false, exit_status_flag: false, compact_text: true });
+    }
+    out
+}
+
+/// What jq does with a program: the outputs, then either normal end or an error payload.
+#[derive(Clone, Debug)]
+struct Outc {
+    /// None: outputs before the error are not recorded (error probes)
+    ys: Option<Vec<(J, Option<String>)>>,
+    err: Option<J>,
+    /// the recorded filter does arithmetic / uses nan: a printed `null` may be NaN (truthy)
+    null_may_be_nan: bool,
+}
+
+#[derive(Clone, Debug, PartialEq)]
+enum W {
+    Collect,
+    PipeId,
+    IdPipe,
+    Dup,
+    First,
+    Limit(usize),
+    CollectIdx(i64),
+    CollectIdxParen(i64),
+    AsIn,
+    Def,
+    DefArg,
+    IfTrue,
+    IfFalse,
+    TryCatch,
+    TryQ,
+    TryBare,
+    ObjVal,
+    AsOut,
+    CollectLen,
+    ReduceLast,
+    ForeachCount,
+    PipeConst,
+    Alt,
+    SelectTrue,
+    ArrEach,
+    Tail,
+    Head,
+    Label,
+    LabelBreak,
+    CollectIter,
+    ErrFirst,
+    EmptyAfter,
+}
+
+const ALL_W: &[W] = &[
+    W::Collect, W::PipeId, W::IdPipe, W::Dup, W::First, W::Limit(1), W::Limit(2), W::Limit(3), W::CollectIdx(0), W::CollectIdxParen(0), W::CollectIdxParen(1), W::CollectIdxParen(-1), W::CollectIdxParen(7), W::CollectIdxParen(2), W::AsIn, W::Def, W::DefArg, W::IfTrue, W::IfFalse, W::TryCatch, W::TryCatch, W::TryQ, W::TryBare, W::ObjVal, W::AsOut, W::CollectLen, W::ReduceLast, W::ForeachCount, W::PipeConst, W::Alt, W::SelectTrue, W::ArrEach, W::Tail, W::Head, W::Label, W::LabelBreak, W::CollectIter, W::ErrFirst, W::EmptyAfter,
+];
+
+impl W {
+    fn name(&self) -> String {
+        match self {
+            W::Limit(n) => format!("Limit:{}", n),
+            W::CollectIdx(i) => format!("CollectIdx:{}", i),
+            W::CollectIdxParen(i) => format!("CollectIdxParen:{}", i),
+            w => format!("{:?}", w),
+        }
+    }
+    fn parse(s: &str) -> Option<W> {
+        if let Some(n) = s.strip_prefix("Limit:") {
+            return n.parse().ok().map(W::Limit);
+        }
+        if let Some(n) = s.strip_prefix("CollectIdx:") {
+            return n.parse().ok().map(W::CollectIdx);
+        }
+        if let Some(n) = s.strip_prefix("CollectIdxParen:") {
+            return n.parse().ok().map(W::CollectIdxParen);
+        }
+        ALL_W.iter().find(|w| w.name() == s).cloned()
+    }
+    /// also valid when the outputs before the error are unknown (erases them)
+    fn erases_prefix(&self) -> bool {
+        matches!(self, W::Collect | W::CollectIdx(_) | W::CollectIdxParen(_) | W::CollectLen | W::ReduceLast | W::CollectIter)
+    }
+
+    /// program text and outcome of the wrapped program; `d` makes bound names unique
+    fn apply(&self, p: &str, o: &Outc, d: usize) -> Option<(String, Outc)> {
+        if o.ys.is_none() && !self.erases_prefix() {
+            return None;
+        }
+        let ys: Vec<(J, Option<String>)> = o.ys.clone().unwrap_or_default();
+        let ok = o.err.is_none();
+        let same = |t: String| Some((t, Outc { null_may_be_nan: o.null_may_be_nan, ys: Some(ys.clone()), err: o.err.clone() }));
+        let text_all = |v: &[(J, Option<String>)]| -> Option<Vec<String>> { v.iter().map(|x| x.1.clone()).collect() };
+        let collected = || -> (J, Option<String>) { (J::Arr(ys.iter().map(|x| x.0.clone()).collect()), text_all(&ys).map(|t| format!("[{}]", t.join(",")))) };
+        let lit = |j: J| -> (J, Option<String>) {
+            let t = to_compact(&j);
+            (j, Some(t))
+        };
+        match self {
+            W::Collect => Some((format!("[{}]", p), if ok { Outc { null_may_be_nan: o.null_may_be_nan, ys: Some(vec![collected()]), err: None } } else { Outc { null_may_be_nan: o.null_may_be_nan, ys: Some(vec![]), err: o.err.clone() } })),
+            W::PipeId => same(format!("({}) | .", p)),
+            W::IdPipe => same(format!(". | ({})", p)),
+            W::Dup => {
+                let mut v = ys.clone();
+                if ok {
+                    v.extend(ys.clone());
+                }
+                Some((format!("({}), ({})", p, p), Outc { null_may_be_nan: o.null_may_be_nan, ys: Some(v), err: o.err.clone() }))
+            }
+            W::First => Some((format!("first({})", p), if ys.is_empty() { Outc { null_may_be_nan: o.null_may_be_nan, ys: Some(vec![]), err: o.err.clone() } } else { Outc { null_may_be_nan: o.null_may_be_nan, ys: Some(vec![ys[0].clone()]), err: None } })),
+            W::Limit(n) => Some((format!("limit({}; {})", n, p), if ys.len() >= *n { Outc { null_may_be_nan: o.null_may_be_nan, ys: Some(ys[..*n].to_vec()), err: None } } else { Outc { null_may_be_nan: o.null_may_be_nan, ys: Some(ys.clone()), err: o.err.clone() } })),
+            W::CollectIdx(i) | W::CollectIdxParen(i) => {
+                let t = if matches!(self, W::CollectIdx(_)) { format!("[{}][{}]", p, i) } else { format!("([{}])[{}]", p, i) };
+                if !ok {
+                    return Some((t, Outc { null_may_be_nan: o.null_may_be_nan, ys: Some(vec![]), err: o.err.clone() }));
+                }
+                let n = ys.len() as i64;
+                let k = if *i < 0 { n + i } else { *i };
+                let v = if k >= 0 && k < n { ys[k as usize].clone() } else { lit(J::Null) };
+                Some((t, Outc { null_may_be_nan: o.null_may_be_nan, ys: Some(vec![v]), err: None }))
+            }
+            W::AsIn => same(format!(". as $vh_i{} | ({})", d, p)),
+            W::Def => same(format!("def vh_g{}: {}; vh_g{}", d, p, d)),
+            W::DefArg => same(format!("def vh_h{}(f): f; vh_h{}({})", d, d, p)),
+            W::IfTrue => same(format!("if true then ({}) else empty end", p)),
+            W::IfFalse => same(format!("if false then empty else ({}) end", p)),
+            W::TryCatch => {
+                let mut v = ys.clone();
+                if let Some(e) = &o.err {
+                    v.push((e.clone(), None));
+                }
+                Some((format!("try ({}) catch .", p), Outc { null_may_be_nan: o.null_may_be_nan, ys: Some(v), err: None }))
+            }
+            W::TryQ => Some((format!("({})?", p), Outc { null_may_be_nan: o.null_may_be_nan, ys: Some(ys.clone()), err: None })),
+            W::TryBare => Some((format!("try ({})", p), Outc { null_may_be_nan: o.null_may_be_nan, ys: Some(ys.clone()), err: None })),
+            W::ObjVal => Some((format!("{{a: ({})}}", p), Outc { null_may_be_nan: o.null_may_be_nan, ys: Some(ys.iter().map(|(j, t)| (J::Obj(vec![("a".into(), j.clone())]), t.as_ref().map(|t| format!("{{\"a\":{}}}", t)))).collect()), err: o.err.clone() })),
+            W::AsOut => same(format!("({}) as $vh_o{} | $vh_o{}", p, d, d)),
+            W::CollectLen => Some((format!("[{}] | length", p), if ok { Outc { null_may_be_nan: o.null_may_be_nan, ys: Some(vec![lit(J::int(ys.len() as i64))]), err: None } } else { Outc { null_may_be_nan: o.null_may_be_nan, ys: Some(vec![]), err: o.err.clone() } })),
+            W::ReduceLast => Some((format!("reduce ({}) as $vh_r{} (null; $vh_r{})", p, d, d), if ok { Outc { null_may_be_nan: o.null_may_be_nan, ys: Some(vec![ys.last().cloned().unwrap_or_else(|| lit(J::Null))]), err: None } } else { Outc { null_may_be_nan: o.null_may_be_nan, ys: Some(vec![]), err: o.err.clone() } })),
+            W::ForeachCount => Some((
+                format!("foreach ({}) as $vh_f{} (0; . + 1; [., $vh_f{}])", p, d, d),
+                Outc { null_may_be_nan: o.null_may_be_nan, ys: Some(ys.iter().enumerate().map(|(i, (j, t))| (J::Arr(vec![J::int(i as i64 + 1), j.clone()]), t.as_ref().map(|t| format!("[{},{}]", i + 1, t)))).collect()), err: o.err.clone() },
+            )),
+            W::PipeConst => Some((format!("({}) | \"vh\"", p), Outc { null_may_be_nan: o.null_may_be_nan, ys: Some(ys.iter().map(|_| lit(J::Str("vh".into()))).collect()), err: o.err.clone() })),
+            W::Alt if o.null_may_be_nan && ys.iter().any(|x| matches!(x.0, J::Null)) => None,
+            W::Alt => {
+                let truthy: Vec<(J, Option<String>)> = ys.iter().filter(|x| !matches!(x.0, J::Null | J::Bool(false))).cloned().collect();
+                let t = format!("({}) // \"vh-dflt\"", p);
+                if ok {
+                    let v = if truthy.is_empty() { vec![lit(J::Str("vh-dflt".into()))] } else { truthy };
+                    Some((t, Outc { null_may_be_nan: o.null_may_be_nan, ys: Some(v), err: None }))
+                } else {
+                    // an error raised by the left-hand side propagates (golden alt_error_after_output)
+                    Some((t, Outc { null_may_be_nan: o.null_may_be_nan, ys: Some(truthy), err: o.err.clone() }))
+                }
+            }
+            W::SelectTrue => same(format!("({}) | select(true)", p)),
+            W::ArrEach => Some((format!("({}) | [.]", p), Outc { null_may_be_nan: o.null_may_be_nan, ys: Some(ys.iter().map(|(j, t)| (J::Arr(vec![j.clone()]), t.as_ref().map(|t| format!("[{}]", t)))).collect()), err: o.err.clone() })),
+            W::Tail => {
+                let mut v = ys.clone();
+                if ok {
+                    v.push(lit(J::Str("vh-tail".into())));
+                }
+                Some((format!("({}), \"vh-tail\"", p), Outc { null_may_be_nan: o.null_may_be_nan, ys: Some(v), err: o.err.clone() }))
+            }
+            W::Head => {
+                let mut v = vec![lit(J::Str("vh-head".into()))];
+                v.extend(ys.clone());
+                Some((format!("\"vh-head\", ({})", p), Outc { null_may_be_nan: o.null_may_be_nan, ys: Some(v), err: o.err.clone() }))
+            }
+            W::Label => same(format!("label $vh_l{} | ({})", d, p)),
+            W::LabelBreak => same(format!("label $vh_b{} | (({}), break $vh_b{}, \"vh-unreachable\")", d, p, d)),
+            W::CollectIter => Some((format!("[{}] | .[]", p), if ok { Outc { null_may_be_nan: o.null_may_be_nan, ys: Some(ys.clone()), err: None } } else { Outc { null_may_be_nan: o.null_may_be_nan, ys: Some(vec![]), err: o.err.clone() } })),
+            W::ErrFirst => {
+                // try error(f) catch . : the first output of f is raised and caught; an error of f itself is caught too
+                let t = format!("try error({}) catch .", p);
+                if let Some(y) = ys.first() {
+                    Some((t, Outc { null_may_be_nan: o.null_may_be_nan, ys: Some(vec![(y.0.clone(), None)]), err: None }))
+                } else if let Some(e) = &o.err {
+                    Some((t, Outc { null_may_be_nan: o.null_may_be_nan, ys: Some(vec![(e.clone(), None)]), err: None }))
+                } else {
+                    Some((t, Outc { null_may_be_nan: o.null_may_be_nan, ys: Some(vec![]), err: None }))
+                }
+            }
+            W::EmptyAfter => Some((format!("({}) | empty", p), Outc { null_may_be_nan: o.null_may_be_nan, ys: Some(vec![]), err: o.err.clone() })),
+        }
+    }
+}
+
+struct MetaCase {
+    anchor: Anchor,
+    wrappers: Vec<W>,
+    iter2: bool,
+    program: String,
+    input: String,
+    expect: Outc,
+    /// an `error(f)` wrapper was applied to an f with no outputs and no error
+    errfirst_empty: bool,
+}
+
+fn build_meta(a: &Anchor, ws: &[W], iter2: bool) -> Option<MetaCase> {
+    let mut prog = a.filter.clone();
+    let arith = ["nan", "infinite", "log", "log2", "log10", "exp", "exp2", "exp10", "sqrt", "pow", "sin", "cos", "atan", "floor", "ceil", "round", "trunc", "fabs", "tonumber", "fromjson", "significand", "gamma", "logb"];
+    let may_nan = a.filter.chars().any(|c| "+-*/%".contains(c)) || idents(&a.filter).iter().any(|w| arith.contains(&w.as_str()));
+    let mut o = Outc { null_may_be_nan: may_nan, ys: a.ys.clone(), err: a.err.clone() };
+    let mut applied = vec![];
+    let mut errfirst_empty = false;
+    for (d, w) in ws.iter().enumerate() {
+        if *w == W::ErrFirst && o.err.is_none() && matches!(&o.ys, Some(v) if v.is_empty()) {
+            errfirst_empty = true;
+        }
+        if let Some((t, no)) = w.apply(&prog, &o, d) {
+            prog = t;
+            o = no;
+            applied.push(w.clone());
+        }
+    }
+    if applied.is_empty() || o.ys.is_none() {
+        return None;
+    }
+    let mut input = a.input.clone();
+    let mut it = false;
+    if iter2 && !a.null_input {
+        // [.[] | P] over [x, x]
+        let ys = o.ys.clone().unwrap();
+        let ok = o.err.is_none();
+        let mut v = ys.clone();
+        v.extend(ys.clone());
+        let txt: Option<Vec<String>> = v.iter().map(|x| x.1.clone()).collect();
+        o = if ok { Outc { null_may_be_nan: o.null_may_be_nan, ys: Some(vec![(J::Arr(v.iter().map(|x| x.0.clone()).collect()), txt.map(|t| format!("[{}]", t.join(","))))]), err: None } } else { Outc { null_may_be_nan: o.null_may_be_nan, ys: Some(vec![]), err: o.err.clone() } };
+        prog = format!("[.[] | ({})]", prog);
+        let x = a.input.trim();
+        input = format!("[{},{}]\n", x, x);
+        it = true;
+    }
+    Some(MetaCase { anchor: a.clone(), wrappers: applied, iter2: it, program: prog, input, expect: o, errfirst_empty })
+}
+
+fn check_meta(c: &MetaCase, st: &mut Stats) -> Result<(), Fail> {
+    let o = run_prog(None, &c.anchor.args, &c.program, c.input.as_bytes(), 20);
+    st.evals(1);
+    if o.timed_out {
+        st.discard();
+        return Ok(());
+    }
+    let case = || json!({"anchor": c.anchor.id, "recorded_filter": c.anchor.filter, "args": c.anchor.args, "wrappers": c.wrappers.iter().map(|w| w.name()).collect::<Vec<_>>(), "iter2": c.iter2, "program": c.program, "input": short(&c.input, 600)});
+    let ws = c.wrappers.iter().map(|w| format!("{:?}", w).split('(').next().unwrap().to_string()).collect::<Vec<_>>().join("+");
+    if o.crashed() {
+        fail!("C24/crash", {"case": case(), "got": show_out(&o)});
+    }
+    if o.code == Some(1) && o.stderr_str().contains("compile error") {
+        // the program is standard jq (the recorded filter inside law wrappers) and must compile
+        // is the only obstacle the `[f][i]` spelling? re-run with `([f])[i]`
+        let postfix = c.wrappers.iter().any(|w| matches!(w, W::CollectIdx(_))) && {
+            let ws2: Vec<W> = c.wrappers.iter().map(|w| if let W::CollectIdx(i) = w { W::CollectIdxParen(*i) } else { w.clone() }).collect();
+            match build_meta(&c.anchor, &ws2, c.iter2) {
+                Some(c2) => {
+                    let o2 = run_prog(None, &c2.anchor.args, &c2.program, c2.input.as_bytes(), 20);
+                    !(o2.code == Some(1) && o2.stderr_str().contains("compile error"))
+                }
+                None => false,
+            }
+        };
+        let sig = if postfix { SIG_POSTFIX.to_string() } else { format!("C24/meta/parse-reject/{}", ws) };
+        fail!(sig, {"case": case(), "got": show_out(&o)});
+    }
+    let exp_ys = c.expect.ys.as_ref().unwrap();
+    let exp_render = || json!({"values": exp_ys.iter().map(|x| to_compact(&x.0)).collect::<Vec<_>>(), "error": c.expect.err.as_ref().map(to_compact)});
+    // stdout: values
+    let got = match parse_stream(&o.stdout) {
+        Ok(v) => v,
+        Err(e) => fail!(format!("C24/meta/stdout-not-json/{}", ws), {"case": case(), "parse_error": e.msg, "got": show_out(&o), "expected": exp_render()}),
+    };
+    if got.len() != exp_ys.len() || got.iter().zip(exp_ys.iter()).any(|(g, e)| !j_eq(g, &e.0)) {
+        if c.wrappers.contains(&W::ErrFirst) && c.anchor.args.iter().any(|a| a == "--arg" || a == "--argjson") && o.stdout_str().contains("undefined variable: $") {
+            fail!(SIG_ERROR_ARG_SCOPE, {"case": case(), "got": show_out(&o), "expected": exp_render()});
+        }
+        if c.errfirst_empty && (o.stdout_str().contains("\"no value\"") || o.stderr_str().contains("no value")) {
+            fail!(SIG_ERROR_EMPTY, {"case": case(), "got": show_out(&o), "expected": exp_render()});
+        }
+        fail!(format!("C24/meta/values/{}", ws), {"case": case(), "got": show_out(&o), "expected": exp_render()});
+    }
+    // error or not, message, exit status
+    match &c.expect.err {
+        None => {
+            let want = if c.anchor.exit_status_flag {
+                match exp_ys.last() {
+                    None => 4,
+                    Some((J::Null, _)) | Some((J::Bool(false), _)) => 1,
+                    _ => 0,
+                }
+            } else {
+                0
+            };
+            if o.code != Some(want) {
+                fail!(format!("C24/meta/unexpected-failure/{}", ws), {"case": case(), "got": show_out(&o), "expected": exp_render(), "expected_exit": want});
+            }
+        }
+        Some(p) => {
+            if o.code != Some(5) {
+                fail!(format!("C24/meta/missing-error/{}", ws), {"case": case(), "got": show_out(&o), "expected": exp_render(), "expected_exit": 5});
+            }
+            let want = errmsg_of_payload(p);
+            let gotm = parse_errs(&o.stderr_str());
+            let okm = match &gotm {
+                Some(v) if v.len() == 1 => {
+                    // probe recordings keep the first line only
+                    errmsg_eq(&v[0], &want) || matches!((&v[0], &want), (ErrMsg::Str(a), ErrMsg::Str(b)) if c.anchor.id.starts_with("probe:") && a.lines().next() == Some(b.as_str()))
+                }
+                _ => false,
+            };
+            if !okm {
+                fail!(format!("C24/meta/message/{}", ws), {"case": case(), "got": show_out(&o), "expected_message": format!("{:?}", want)});
+            }
+        }
+    }
+    // text, when every expected value carries its recorded text
+    if let (true, Some(txt)) = (c.anchor.compact_text, exp_ys.iter().map(|x| x.1.clone()).collect::<Option<Vec<String>>>()) {
+        let mut want = txt.join("\n");
+        if !txt.is_empty() {
+            want.push('\n');
+        }
+        st.class("text-compared");
+        if o.stdout != want.as_bytes() {
+            fail!(format!("C24/meta/text/{}", ws), {"case": case(), "got": show_out(&o), "expected_stdout": short(&want, 1500)});
+        }
+    }
+    Ok(())
+}
+
+fn gen_meta(u: &mut Src, anchors: &[Anchor]) -> Option<MetaCase> {
+    let a = &anchors[u.below(anchors.len())];
+    let depth = 1 + u.weighted(&[3, 5, 4]);
+    let mut ws = vec![];
+    for i in 0..depth {
+        // probes need a prefix-erasing wrapper first
+        if i == 0 && a.ys.is_none() {
+            ws.push(u.pick(&[W::Collect, W::Collect, W::CollectLen, W::ReduceLast, W::CollectIdxParen(0), W::CollectIter]).clone());
+        } else {
+            ws.push(u.pick(ALL_W).clone());
+        }
+    }
+    let iter2 = u.ratio(1, 8);
+    build_meta(a, &ws, iter2)
+}
+
+// ------------------------------------------------------------------ (b) proxy differential
+
+#[derive(Clone, Debug)]
+struct ProxyCase {
+    program: String,
+    docs: Vec<String>,
+    raw: bool,
+    ops: Vec<String>,
+    nodes: usize,
+    catch_dot: bool,
+    deliberate: usize,
+    scalar_input: bool,
+}
+
+fn gen_proxy(u: &mut Src) -> ProxyCase {
+    let shape = jqcore::gen_shape(u, 0);
+    let raw = u.ratio(1, 3);
+    let k = if raw { 1 } else { u.range(2, 6) };
+    let dup = u.ratio(1, 30);
+    let docs: Vec<String> = (0..k)
+        .map(|_| {
+            let mut j = jqcore::instantiate(u, &shape);
+            if dup {
+                // a duplicate key right before its survivor: same position, last value wins
+                if let J::Obj(f) = &mut j {
+                    if let Some(first) = f.first().cloned() {
+                        f.insert(0, (first.0, J::Str("shadowed".into())));
+                    }
+                }
+            }
+            to_compact(&j)
+        })
+        .collect();
+    let p = jqcore::gen_program(u, &shape);
+    ProxyCase { program: p.text, docs, raw, ops: p.ops, nodes: p.nodes, catch_dot: p.catch_dot, deliberate: p.deliberate, scalar_input: !matches!(shape, Shape::Arr(_) | Shape::ArrOf(_) | Shape::Obj(_)) }
+}
+
+#[derive(Clone, Debug)]
+struct DocRes {
+    ys: Vec<J>,
+    err: Option<ErrMsg>,
+}
+
+enum Side {
+    Ok(Vec<DocRes>),
+    /// the tool refused the program (compile error) — message
+    Reject(String),
+    Crash,
+    Timeout,
+    /// anything else that cannot be interpreted (tool assertion, stray stderr, misaligned batch)
+    Weird(String),
+}
+
+fn marker(j: &J, key: &str) -> Option<i64> {
+    match j {
+        J::Obj(f) if f.len() == 1 && f[0].0 == key => match &f[0].1 {
+            J::Num(n) => n.int,
+            _ => None,
+        },
+        _ => None,
+    }
+}
+
+fn interpret(o: &CliOut, ndocs: usize, batch: bool, succ: bool) -> Side {
+    if o.timed_out {
+        return Side::Timeout;
+    }
+    if succ && o.crashed() {
+        return Side::Crash;
+    }
+    let stderr = o.stderr_str();
+    if succ {
+        if o.code == Some(1) && stderr.contains("compile error") {
+            return Side::Reject(short(stderr.lines().next().unwrap_or(""), 200));
+        }
+    } else {
+        if o.code == Some(3) || o.code == Some(2) {
+            return Side::Reject(short(&stderr, 300));
+        }
+        if o.signal.is_some() || !matches!(o.code, Some(0) | Some(5)) {
+            return Side::Weird(format!("reference exit {:?} signal {:?}: {}", o.code, o.signal, short(&stderr, 200)));
+        }
+    }
+    let errs = if stderr.is_empty() {
+        vec![]
+    } else {
+        match parse_errs(&stderr) {
+            Some(v) => v,
+            None => return Side::Weird(format!("stderr not understood: {}", short(&stderr, 300))),
+        }
+    };
+    let vals = match parse_stream(&o.stdout) {
+        Ok(v) => v,
+        Err(e) => return Side::Weird(format!("stdout is not a JSON value stream: {}", e.msg)),
+    };
+    if !batch {
+        if errs.len() > 1 {
+            return Side::Weird("more than one error line for one document".into());
+        }
+        return Side::Ok(vec![DocRes { ys: vals, err: errs.into_iter().next() }]);
+    }
+    let mut docs: Vec<DocRes> = vec![];
+    let mut ended: Vec<bool> = vec![];
+    for v in vals {
+        if let Some(k) = marker(&v, "__vh_s") {
+            if k != docs.len() as i64 {
+                return Side::Weird("batch markers out of order".into());
+            }
+            docs.push(DocRes { ys: vec![], err: None });
+            ended.push(false);
+        } else if let Some(k) = marker(&v, "__vh_e") {
+            if docs.is_empty() || k != docs.len() as i64 - 1 || ended[k as usize] {
+                return Side::Weird("batch end marker out of order".into());
+            }
+            ended[k as usize] = true;
+        } else {
+            match docs.last_mut() {
+                Some(d) if !*ended.last().unwrap() => d.ys.push(v),
+                _ => return Side::Weird("output outside batch markers".into()),
+            }
+        }
+    }
+    if docs.len() != ndocs {
+        return Side::Weird(format!("batch produced {} of {} documents", docs.len(), ndocs));
+    }
+    let open: Vec<usize> = (0..ndocs).filter(|&i| !ended[i]).collect();
+    if open.len() != errs.len() {
+        return Side::Weird(format!("{} unfinished documents but {} error lines", open.len(), errs.len()));
+    }
+    for (i, e) in open.into_iter().zip(errs) {
+        docs[i].err = Some(e);
+    }
+    Side::Ok(docs)
+}
+
+fn run_side(bin: Option<&str>, c: &ProxyCase, docs: &[String], batch: bool) -> (Side, CliOut) {
+    let (prog, input) = if batch {
+        let inp: String = docs.iter().enumerate().map(|(i, d)| format!("{{\"i\":{},\"d\":{}}}\n", i, d)).collect();
+        (format!("{{\"__vh_s\": .i}}, (.d | ({})), {{\"__vh_e\": .i}}", c.program), inp)
+    } else {
+        (c.program.clone(), format!("{}\n", docs[0]))
+    };
+    let o = run_prog(bin, &["-c".to_string()], &prog, input.as_bytes(), if bin.is_some() { 5 } else { 20 });
+    (interpret(&o, docs.len(), batch, bin.is_none()), o)
+}
+
+/// user-raised payloads of the generator: always comparable
+const USER_MSGS: &[&str] = &["boom", "msg"];
+
+fn ops_sig(ops: &[String]) -> String {
+    let structural = ["pipe", "comma", "collect", "field", "index", "iterate", "object", "try"];
+    let mut v: Vec<&String> = ops.iter().filter(|o| !structural.contains(&o.as_str())).collect();
+    if v.is_empty() {
+        v = ops.iter().collect();
+    }
+    v.iter().take(5).map(|s| s.as_str()).collect::<Vec<_>>().join(",")
+}
+
+struct ProxyEnv {
+    stable: BTreeSet<String>,
+}
+
+/// Known-finding signatures: a narrow predicate on the failing case maps to a stable name.
+fn known_signature(kind: &str, c: &ProxyCase, _detail: &str) -> Option<String> {
+    let has = |o: &str| c.ops.iter().any(|x| x == o);
+    match kind {
+        // a program containing one of these spellings is rejected whatever else it contains
+        "parse-reject" if has("format-interp") => Some(SIG_FORMAT_LITERAL.into()),
+        "parse-reject" if has("interp-key") => Some(SIG_INTERP_KEY.into()),
+        "parse-reject" if has("obj-var-shorthand") => Some(SIG_VAR_SHORTHAND.into()),
+        "parse-reject" if has("postfix-term") => Some(SIG_POSTFIX.into()),
+        _ => None,
+    }
+}
+
+fn compare_docs(c: &ProxyCase, env: &ProxyEnv, a: &[DocRes], b: &[DocRes], docs: &[String], st: &mut Stats, mode: &str) -> Result<(), Fail> {
+    // a = jq 1.6, b = succinctly
+    for (i, (ra, rb)) in a.iter().zip(b.iter()).enumerate() {
+        st.evals(1);
+        if ra.ys.iter().chain(rb.ys.iter()).any(has_big_number) {
+            st.class("doc-discard:number-beyond-2^53");
+            continue;
+        }
+        let case = || json!({"program": c.program, "doc": docs[i], "mode": mode, "ops": c.ops, "jq16": {"values": ra.ys.iter().map(to_compact).collect::<Vec<_>>(), "error": format!("{:?}", ra.err)}, "succinctly": {"values": rb.ys.iter().map(to_compact).collect::<Vec<_>>(), "error": format!("{:?}", rb.err)}});
+        let vals_eq = ra.ys.len() == rb.ys.len() && ra.ys.iter().zip(rb.ys.iter()).all(|(x, y)| j_eq(x, y));
+        match (&ra.err, &rb.err) {
+            (Some(ErrMsg::Str(m)), None) => {
+                let t = template(m);
+                if c.program.contains("index(\"") && docs[i].starts_with('{') && m.starts_with("Cannot index") && rb.ys.len() == 1 && matches!(rb.ys[0], J::Null) {
+                    fail!(SIG_INDEX_OBJECT, {"case": case()});
+                }
+                fail!(format!("C24/proxy/only-jq-errors/{}", t), {"case": case(), "family_recorded_stable": env.stable.contains(&t)});
+            }
+            (Some(ErrMsg::NotStr(_)), None) => fail!("C24/proxy/only-jq-errors/(not a string)", {"case": case()}),
+            (None, Some(ErrMsg::Str(m))) => fail!(format!("C24/proxy/only-succinctly-errors/{}", template(m)), {"case": case()}),
+            (None, Some(ErrMsg::NotStr(_))) => fail!("C24/proxy/only-succinctly-errors/(not a string)", {"case": case()}),
+            _ => {}
+        }
+        if !vals_eq {
+            if c.catch_dot {
+                // the text of a caught message may be part of a value; only stable families count
+                if let Some((sa, sb)) = first_string_diff(&ra.ys, &rb.ys) {
+                    let t = template(&sa);
+                    if env.stable.contains(&t) && sa.is_ascii() && sb.is_ascii() {
+                        fail!(format!("C24/proxy/caught-message/{}", t), {"case": case(), "jq16_string": sa, "succinctly_string": sb});
+                    }
+                    if looks_like_message(&sa) || looks_like_message(&sb) {
+                        st.class("doc-discard:caught-message-family-not-recorded-stable");
+                        continue;
+                    }
+                }
+            }
+            if c.program.contains("sqrt") && ra.ys.len() == rb.ys.len() && ra.ys.iter().zip(rb.ys.iter()).all(|(x, y)| near_eq(x, y)) {
+                fail!(SIG_SQRT, {"case": case()});
+            }
+            if c.program.contains("flatten") && !c.program.contains("flatten(") && ra.ys.len() == rb.ys.len() && ra.ys.iter().zip(rb.ys.iter()).all(|(x, y)| to_compact(x).replace(['[', ']'], "") == to_compact(y).replace(['[', ']'], "")) {
+                fail!(SIG_FLATTEN, {"case": case()});
+            }
+            if c.program.starts_with("last(") && rb.ys.is_empty() && ra.ys.len() == 1 && matches!(ra.ys[0], J::Null) {
+                fail!(SIG_LAST_EMPTY, {"case": case()});
+            }
+            if (c.program.contains("split(") || c.program.contains(" / \"")) && docs[i].contains("\"\"") && strip_empty_string_arrays(&ra.ys) == strip_empty_string_arrays(&rb.ys) {
+                fail!(SIG_SPLIT_EMPTY, {"case": case()});
+            }
+            fail!(format!("C24/proxy/values/{}", ops_sig(&c.ops)), {"case": case()});
+        }
+        if let (Some(ma), Some(mb)) = (&ra.err, &rb.err) {
+            match (ma, mb) {
+                (ErrMsg::Str(x), ErrMsg::Str(y)) => {
+                    let t = template(x);
+                    let comparable = (env.stable.contains(&t) || USER_MSGS.contains(&x.as_str())) && x.is_ascii() && y.is_ascii();
+                    if comparable {
+                        st.class("message-compared");
+                        if x != y {
+                            fail!(format!("C24/proxy/message/{}", t), {"case": case()});
+                        }
+                    } else {
+                        st.class("message-family-not-recorded-stable");
+                    }
+                }
+                (ErrMsg::NotStr(_), ErrMsg::NotStr(_)) => {
+                    if !errmsg_eq(ma, mb) {
+                        fail!("C24/proxy/message/(not a string)", {"case": case()});
+                    }
+                }
+                _ => fail!("C24/proxy/message/payload-kind", {"case": case()}),
+            }
+        }
+    }
+    Ok(())
+}
+
+/// compact text of the outputs with every `[""]` rewritten to `[]`
+fn strip_empty_string_arrays(v: &[J]) -> String {
+    v.iter().map(|j| to_compact(j).replace("[\"\"]", "[]")).collect::<Vec<_>>().join("\n")
+}
+
+/// equal up to a few ulps in every number
+fn near_eq(a: &J, b: &J) -> bool {
+    match (a, b) {
+        (J::Num(x), J::Num(y)) => x.value == y.value || (x.value - y.value).abs() <= 1e-15 * x.value.abs().max(y.value.abs()),
+        (J::Arr(x), J::Arr(y)) => x.len() == y.len() && x.iter().zip(y.iter()).all(|(p, q)| near_eq(p, q)),
+        (J::Obj(x), J::Obj(y)) => x.len() == y.len() && x.iter().zip(y.iter()).all(|(p, q)| p.0 == q.0 && near_eq(&p.1, &q.1)),
+        _ => j_eq(a, b),
+    }
+}
+
+fn looks_like_message(s: &str) -> bool {
+    ["cannot", "Cannot", "not ", "has no", "Invalid", "must", "required", "is not", "Out of bounds", "only", "can't"].iter().any(|w| s.contains(w))
+}
+
+fn first_string_diff(a: &[J], b: &[J]) -> Option<(String, String)> {
+    fn walk(a: &J, b: &J) -> Option<(String, String)> {
+        match (a, b) {
+            (J::Str(x), J::Str(y)) if x != y => Some((x.clone(), y.clone())),
+            (J::Arr(x), J::Arr(y)) if x.len() == y.len() => x.iter().zip(y.iter()).find_map(|(p, q)| walk(p, q)),
+            (J::Obj(x), J::Obj(y)) if x.len() == y.len() => x.iter().zip(y.iter()).find_map(|(p, q)| walk(&p.1, &q.1)),
+            _ => None,
+        }
+    }
+    if a.len() != b.len() {
+        return None;
+    }
+    a.iter().zip(b.iter()).find_map(|(p, q)| walk(p, q))
+}
+
+fn check_proxy(c: &ProxyCase, env: &ProxyEnv, st: &mut Stats) -> Result<(), Fail> {
+    let batch = !c.raw && c.docs.len() > 1;
+    let (sa, oa) = run_side(Some(JQ16), c, &c.docs, batch);
+    let a = match sa {
+        Side::Ok(v) => v,
+        Side::Reject(m) => {
+            // a program jq 1.6 does not compile is outside the proxy's domain
+            st.class("discard:jq16-compile-error");
+            st.sample("discard:jq16-compile-error", || json!({"program": c.program, "stderr": m}));
+            st.discard();
+            return Ok(());
+        }
+        Side::Timeout => {
+            st.class("discard:jq16-timeout");
+            st.discard();
+            return Ok(());
+        }
+        Side::Crash | Side::Weird(_) => {
+            st.class("discard:jq16-uninterpretable");
+            st.sample("discard:jq16-uninterpretable", || json!({"program": c.program, "got": show_out(&oa)}));
+            st.discard();
+            return Ok(());
+        }
+    };
+    let (sb, ob) = run_side(None, c, &c.docs, batch);
+    let case = || json!({"program": c.program, "docs": c.docs, "mode": if batch { "batch" } else { "raw" }, "ops": c.ops});
+    let b = match sb {
+        Side::Ok(v) => v,
+        Side::Crash => fail!("C24/crash", {"case": case(), "got": show_out(&ob)}),
+        Side::Timeout => {
+            st.class("discard:succinctly-timeout");
+            st.discard();
+            return Ok(());
+        }
+        Side::Reject(m) => {
+            let sig = known_signature("parse-reject", c, &m).unwrap_or_else(|| format!("C24/proxy/parse-reject/{}", ops_sig(&c.ops)));
+            fail!(sig, {"case": case(), "succinctly_stderr": m, "note": "jq 1.6 compiles and runs this program"});
+        }
+        Side::Weird(m) => {
+            if batch {
+                // fall back to one document at a time below
+                vec![]
+            } else {
+                fail!("C24/proxy/uninterpretable-output", {"case": case(), "why": m, "got": show_out(&ob)});
+            }
+        }
+    };
+    if batch && b.len() == a.len() {
+        match compare_docs(c, env, &a, &b, &c.docs, st, "batch") {
+            Ok(()) => return Ok(()),
+            Err(_) => {} // bisect: re-run document by document without the batch wrapper
+        }
+    }
+    if batch {
+        let mut any = false;
+        for d in &c.docs {
+            let one = [d.clone()];
+            let (s1, o1) = run_side(Some(JQ16), c, &one, false);
+            let (s2, o2) = run_side(None, c, &one, false);
+            let case1 = || json!({"program": c.program, "doc": d, "mode": "raw (bisected from batch)", "ops": c.ops});
+            match (s1, s2) {
+                (Side::Ok(x), Side::Ok(y)) => {
+                    if let Err(f) = compare_docs(c, env, &x, &y, &one, st, "raw (bisected from batch)") {
+                        return Err(f);
+                    }
+                    any = true;
+                }
+                (_, Side::Crash) => fail!("C24/crash", {"case": case1(), "got": show_out(&o2)}),
+                (Side::Ok(_), Side::Weird(m)) => fail!("C24/proxy/uninterpretable-output", {"case": case1(), "why": m, "got": show_out(&o2)}),
+                _ => {
+                    let _ = o1;
+                }
+            }
+        }
+        if any {
+            // every document agrees on its own, the batch did not
+            fail!("C24/proxy/batch-only-difference", {"case": case(), "jq16": show_out(&oa), "succinctly": show_out(&ob)});
+        }
+        st.discard();
+        return Ok(());
+    }
+    // raw mode: exit status too (jq 1.6: 5 iff the single document raised)
+    compare_docs(c, env, &a, &b, &c.docs, st, "raw")?;
+    if matches!(oa.code, Some(0) | Some(5)) && ob.code != oa.code {
+        fail!("C24/proxy/exit-status", {"case": case(), "jq16_exit": oa.code, "succinctly_exit": ob.code, "got": show_out(&ob)});
+    }
+    Ok(())
+}
+
+// ------------------------------------------------------------------ replays
+
+fn replay_input(v: &Value, anchors: &[Anchor], env: &ProxyEnv) -> Option<Fail> {
+    let inp = &v["input"];
+    let mut st = Stats::default();
+    match v["subcheck"].as_str().unwrap_or("") {
+        "proxy" => {
+            let docs: Vec<String> = inp["docs"].as_array().map(|a| a.iter().filter_map(|x| x.as_str().map(str::to_string)).collect()).unwrap_or_default();
+            let c = ProxyCase {
+                program: inp["program"].as_str().unwrap_or(".").to_string(),
+                raw: inp["mode"].as_str() != Some("batch"),
+                docs,
+                ops: inp["ops"].as_array().map(|a| a.iter().filter_map(|x| x.as_str().map(str::to_string)).collect()).unwrap_or_default(),
+                nodes: 0,
+                catch_dot: inp["program"].as_str().unwrap_or("").contains("catch ."),
+                deliberate: 0,
+                scalar_input: false,
+            };
+            if c.docs.is_empty() {
+                return Some(Fail::new("C24/replay/malformed", json!({"replay": v})));
+            }
+            check_proxy(&c, env, &mut st).err()
+        }
+        "meta" => {
+            let id = inp["anchor"].as_str().unwrap_or("");
+            let Some(a) = anchors.iter().find(|a| a.id == id) else {
+                return Some(Fail::new("C24/replay/unknown-anchor", json!({"anchor": id})));
+            };
+            let ws: Vec<W> = inp["wrappers"].as_array().map(|x| x.iter().filter_map(|s| s.as_str().and_then(W::parse)).collect()).unwrap_or_default();
+            match build_meta(a, &ws, inp["iter2"].as_bool().unwrap_or(false)) {
+                Some(c) => check_meta(&c, &mut st).err(),
+                None => Some(Fail::new("C24/replay/malformed", json!({"replay": v}))),
+            }
+        }
+        _ => Some(Fail::new("C24/replay/malformed", json!({"replay": v}))),
+    }
+}
+
+// ------------------------------------------------------------------ entry point
 
 pub fn run(cx: &mut Ctx) {
-    cx.infra("check not built");
+    cx.assume("The recorded corpus under /repo/tests/data (jq-golden/cases, jq-error-messages.tsv) is what jq 1.7.1 printed; it is read at run time and never regenerated. The repository's manifests jq-golden-known-failures.txt / jq-error-known-divergences.txt and docs/compliance/jq/limitations.md (+ the Known Limitations of docs/reference/jq-language.md) define the documented divergences, which are excluded by construction.");
+    cx.assume("(a) rests on jq's defining equations for the wrapper forms (jq 1.7.1 manual and builtin.jq definitions of first/limit/reduce/foreach/try/label); each law is applied only where it is sound (e.g. [f] of an erroring f is the error alone; first(f) ignores an error after the first output; error probes record no outputs, so they are only wrapped in prefix-erasing forms first).");
+    cx.assume("(b) /usr/bin/jq is jq 1.6, a proxy: it can only confirm agreement where 1.6 == 1.7.1. The generator emits only constructs outside every measured 1.6-vs-recording disagreement cluster and every 1.6->1.7 change known from the changelog; message text is compared only for message families the recorded probes show identical in both versions; a disagreement is a finding only after checking it against the recordings and limitations.md. Numbers are compared as doubles; documents whose outputs exceed 2^53 are discarded (documented i64/f64 arithmetic). Trusted: Rust str::parse::<f64>, the harness JSON value parser.");
+    // development aid (never set by run.sh): dump N generated proxy cases as JSON lines and stop
+    if let Ok(n) = std::env::var("VH_C24_DUMP") {
+        use proptest::strategy::{Strategy, ValueTree};
+        let n: u64 = n.parse().unwrap_or(100);
+        let strat = EntropyStrategy { max_len: 512 };
+        let base = cx.sub_seed("proxy");
+        for i in 0..n {
+            let mut r = runner_for(base, i);
+            if let Ok(t) = strat.new_tree(&mut r) {
+                let e = t.current();
+                let mut u = Src::new(&e.0);
+                let c = gen_proxy(&mut u);
+                println!("{}", json!({"program": c.program, "docs": c.docs, "ops": c.ops, "raw": c.raw, "catch_dot": c.catch_dot}));
+            }
+        }
+        cx.infra("dump mode");
+        return;
+    }
+    if !cli::cli_available() {
+        cx.infra(format!("CLI binary missing: {}", cli::cli_path()));
+        return;
+    }
+    let (goldens, probes) = match (load_goldens(), load_probes()) {
+        (Ok(g), Ok(p)) => (g, p),
+        (Err(e), _) | (_, Err(e)) => {
+            cx.infra(format!("recorded corpus unreadable: {}", e));
+            return;
+        }
+    };
+    if goldens.len() < 400 || probes.len() < 200 {
+        cx.infra(format!("recorded corpus looks truncated: {} goldens, {} probes", goldens.len(), probes.len()));
+        return;
+    }
+    let have16 = std::path::Path::new(JQ16).exists() && {
+        let o = cli::run_with(JQ16, &["--version"], None, Duration::from_secs(5), &[]);
+        o.stdout_str().trim() == "jq-1.6"
+    };
+    let known_g = manifest_names(&format!("{}/tests/data/jq-golden-known-failures.txt", repo()));
+    let known_p = manifest_names(&format!("{}/tests/data/jq-error-known-divergences.txt", repo()));
+    let mut skipped = BTreeMap::new();
+    let anchors = build_anchors(&goldens, &probes, &known_g, &known_p, &mut skipped);
+
+    // calibration of the proxy against the recordings
+    // (only needed by the proxy sub-check; skipped when a development run selects other sub-checks)
+    let want_proxy = !cx.skip("proxy") && cx.replay_entropy.as_ref().map(|r| r.0 == "proxy").unwrap_or(true);
+    let cal = if have16 && want_proxy { Some(calibrate_cached(&goldens, &probes, cx.threads)) } else { None };
+    let env = ProxyEnv { stable: cal.as_ref().map(|c| c.stable.clone()).unwrap_or_default() };
+    if let Some(c) = &cal {
+        cx.extra.insert(
+            "jq16_vs_recorded_jq171".into(),
+            json!({
+                "goldens_agree": c.golden_agree, "goldens_total": c.golden_total,
+                "goldens_disagree": c.golden_disagree.iter().map(|x| json!([x.0, x.1])).collect::<Vec<_>>(),
+                "probes_agree": c.probe_agree, "probes_total": c.probe_total,
+                "probes_disagree": c.probe_disagree.iter().map(|x| json!([x.0, x.1])).collect::<Vec<_>>(),
+                "stable_message_families": c.stable.len(),
+                "unstable_message_families": c.unstable.iter().collect::<Vec<_>>(),
+            }),
+        );
+        // the measured agreement must stay in the region the design was calibrated on
+        if c.golden_agree * 100 < c.golden_total * 85 || c.probe_agree * 100 < c.probe_total * 85 {
+            cx.infra(format!("proxy calibration out of range: jq 1.6 reproduces {}/{} goldens and {}/{} probes", c.golden_agree, c.golden_total, c.probe_agree, c.probe_total));
+        }
+    } else if want_proxy {
+        cx.infra("reference /usr/bin/jq (1.6) not available: proxy differential cannot run");
+    }
+    cx.extra.insert("excluded_constructs".into(), json!(jqcore::EXCLUDED.iter().map(|x| json!({"construct": x.0, "reason": x.1})).collect::<Vec<_>>()));
+    cx.extra.insert("anchors".into(), json!({"eligible": anchors.len(), "goldens": goldens.len(), "probes": probes.len(), "skipped": skipped, "manifest_known_golden_failures": known_g.len(), "manifest_known_probe_divergences": known_p.len()}));
+
+    // 1. committed replays
+    for (name, v) in cx.replays.clone() {
+        if v["kind"] == "input" {
+            let r = replay_input(&v, &anchors, &env);
+            cx.replay_outcome(&name, r);
+        }
+    }
+
+    // 2. the recorded corpus itself, verbatim (what the repository's own suites assert)
+    {
+        let kg = &known_g;
+        let kp = &known_p;
+        let gs = &goldens;
+        let ps = &probes;
+        cx.exhaustive("anchors", "every recorded golden case (stdout, exit status, stderr byte for byte) and every error probe (exit 5, message) through the CLI, minus the repository's known-failure manifests", true, |shard, n, st| {
+            for (i, g) in gs.iter().enumerate() {
+                if i % n != shard || kg.contains(&g.name) {
+                    continue;
+                }
+                let o = run_prog(None, &g.args, &g.filter, g.input.as_bytes(), 30);
+                st.evals(1);
+                st.class("golden");
+                st.nontrivial(hash_str(&g.name));
+                if o.crashed() {
+                    fail!("C24/crash", {"golden": g.name, "filter": g.filter, "got": show_out(&o)});
+                }
+                if let Err(why) = golden_verdict(g, &o) {
+                    if o.timed_out {
+                        continue;
+                    }
+                    fail!(format!("C24/anchor/golden/{}", g.name), {"filter": g.filter, "args": g.args, "input": short(&g.input, 400), "why": why, "got": show_out(&o), "expected_stdout": short(&g.out, 800), "expected_status": g.status, "expected_stderr": g.err});
+                }
+            }
+            for (i, p) in ps.iter().enumerate() {
+                if i % n != shard || kp.contains(&p.id) {
+                    continue;
+                }
+                let o = run_prog(None, &["-c".to_string()], &p.filter, p.input.as_bytes(), 30);
+                st.evals(1);
+                st.class("probe");
+                st.nontrivial(hash_str(&p.id));
+                if o.crashed() {
+                    fail!("C24/crash", {"probe": p.id, "filter": p.filter, "got": show_out(&o)});
+                }
+                if let Err(why) = probe_verdict(p, &o) {
+                    if o.timed_out {
+                        continue;
+                    }
+                    fail!(format!("C24/anchor/probe/{}", p.id), {"filter": p.filter, "input": p.input, "why": why, "got": show_out(&o), "expected_message": p.msg});
+                }
+            }
+            Ok(())
+        });
+    }
+
+    // 3. (a) metamorphic search around the recordings
+    {
+        let an = &anchors;
+        cx.check("meta", "anchor x 1..3 nested law wrappers (+ optional [.[]|P] over [x,x]); expected outcome computed from the recording", Budget { quick: 6000, thorough: 150_000, max_len: 64 }, |u, st| {
+            let Some(c) = gen_meta(u, an) else {
+                st.discard();
+                return Ok(());
+            };
+            st.class(if c.anchor.id.starts_with("probe:") {
+                "anchor:probe"
+            } else if c.anchor.err.is_some() {
+                "anchor:golden-error"
+            } else {
+                "anchor:golden"
+            });
+            st.class(&format!("depth:{}", c.wrappers.len()));
+            for w in &c.wrappers {
+                st.class(&format!("w:{}", format!("{:?}", w).split('(').next().unwrap()));
+            }
+            st.class_if(c.iter2, "w:Iter2");
+            st.class(if c.expect.err.is_some() { "expect:error" } else { "expect:ok" });
+            if c.wrappers.len() >= 2 {
+                st.nontrivial(hash_str(&format!("{}|{}", c.anchor.id, c.program)));
+            }
+            st.size(c.program.len());
+            st.sample(&format!("depth:{}", c.wrappers.len()), || json!({"anchor": c.anchor.id, "program": c.program, "input": short(&c.input, 200), "expected_values": c.expect.ys.as_ref().unwrap().iter().map(|x| to_compact(&x.0)).collect::<Vec<_>>(), "expected_error": c.expect.err.as_ref().map(to_compact)}));
+            st.describe(|| json!({"subcheck": "meta", "input": {"anchor": c.anchor.id, "wrappers": c.wrappers.iter().map(|w| w.name()).collect::<Vec<_>>(), "iter2": c.iter2}, "program": c.program, "stdin": c.input, "args": c.anchor.args}));
+            check_meta(&c, st)
+        });
+        for cl in ["anchor:golden", "anchor:golden-error", "anchor:probe", "expect:error", "text-compared", "w:TryCatch", "w:Collect", "w:First", "depth:3"] {
+            cx.require_class("meta", cl, 20);
+        }
+    }
+
+    // 4. (b) proxy differential on the version-stable core
+    if have16 && want_proxy {
+        let envr = &env;
+        cx.check("proxy", "typed core-fragment program x 1..6 same-shape documents, succinctly vs jq 1.6 (values, error-or-not, exit status, stable message families)", Budget { quick: 6000, thorough: 200_000, max_len: 512 }, |u, st| {
+            let c = gen_proxy(u);
+            st.class(if c.raw || c.docs.len() == 1 { "mode:raw" } else { "mode:batch" });
+            for o in &c.ops {
+                st.class(&format!("op:{}", o));
+            }
+            st.class_if(c.deliberate > 0, "deliberate-type-error");
+            st.class_if(c.catch_dot, "catch-dot");
+            st.class_if(c.scalar_input, "input:scalar");
+            st.class_if(!c.scalar_input, "input:container");
+            if c.nodes >= 3 && !c.scalar_input {
+                st.nontrivial(hash_str(&format!("{}|{}", c.program, c.docs.join("\n"))));
+            }
+            st.size(c.program.len());
+            st.sample(if c.deliberate > 0 { "deliberate-type-error" } else if c.nodes >= 8 { "large" } else { "small" }, || json!({"program": c.program, "docs": c.docs}));
+            st.describe(|| json!({"subcheck": "proxy", "input": {"program": c.program, "docs": c.docs, "mode": if c.raw || c.docs.len() == 1 { "raw" } else { "batch" }, "ops": c.ops}}));
+            check_proxy(&c, envr, st)
+        });
+        for cl in ["mode:raw", "mode:batch", "deliberate-type-error", "message-compared", "op:reduce", "op:foreach", "op:if", "op:try", "op:alternative", "op:object", "op:assign", "op:update", "op:path", "op:sort", "op:add", "op:div", "op:select", "op:limit", "op:def", "op:as", "op:interpolation", "input:container"] {
+            cx.require_class("proxy", cl, 10);
+        }
+    }
+    cli::cleanup();
 }
